@@ -3,3 +3,7 @@ global size_of usize == 8;
 // ASSUMED[std-result-option]: Result::unwrap_or / Result::ok / Result::is_err as documented in std (not specified by this vstd)
 pub assume_specification<T, E>[ Result::<T, E>::unwrap_or ](r: Result<T, E>, d: T) -> (o: T)
     ensures o == (match r { Ok(v) => v, Err(_) => d });
+pub assume_specification<T>[ Option::<T>::or ](a: Option<T>, b: Option<T>) -> (r: Option<T>)
+    ensures r == (match a { Some(x) => Some(x), None => b });
+pub assume_specification<T>[ Option::<T>::xor ](a: Option<T>, b: Option<T>) -> (r: Option<T>)
+    ensures r == (match (a, b) { (Some(x), None) => Some(x), (None, Some(y)) => Some(y), _ => None });
